@@ -7,6 +7,7 @@ import resgen
 import wgslgen as W
 
 ID = "C02"
+VALIDATE_MIX = True
 REQUIRES = ["Agree", "C02Spec", "C02Proof"]
 THEOREM_REQUIRES = ["C02"]
 THEOREMS = ["C02_holds_bool", "C02_compatible", "C02_refuted_ms_float", "C02_refuted_int_gather"]
